@@ -417,6 +417,13 @@ type h265Expect struct {
 }
 
 func foreignH265(t *core.Tape, units [][]byte, donl bool) ([][]byte, []h265Expect) {
+	return foreignH265x(t, units, donl, false)
+}
+
+// foreignH265x: with inconsistent set, some PACI packets announce a TSCI (F0) in a header
+// extension too short to hold one, and some carry almost no payload — forms only a broken or
+// hostile peer sends, for the panic-freedom worlds (no decode expectation exists for them).
+func foreignH265x(t *core.Tape, units [][]byte, donl, inconsistent bool) ([][]byte, []h265Expect) {
 	var out [][]byte
 	var exp []h265Expect
 	don := uint16(t.Draw(1 << 16))
@@ -524,8 +531,12 @@ func foreignH265(t *core.Tape, units [][]byte, donl bool) ([][]byte, []h265Expec
 			}
 			e.f0 = t.Bool()
 			e.phsSize = byte(t.Intn(32))
-			if e.f0 && e.phsSize < 3 {
+			bad := inconsistent && t.Chance(1, 3)
+			if e.f0 && e.phsSize < 3 && !bad {
 				e.phsSize = 3 + byte(t.Intn(29))
+			}
+			if bad && t.Bool() {
+				e.f0, e.phsSize = true, byte(t.Intn(3))
 			}
 			if !e.f0 && t.Chance(1, 2) {
 				e.phsSize = 0
@@ -538,12 +549,16 @@ func foreignH265(t *core.Tape, units [][]byte, donl bool) ([][]byte, []h265Expec
 			}
 			p = append(p, byte(w>>8), byte(w))
 			e.phes = t.Bytes(int(e.phsSize))
-			if e.f0 {
+			if e.f0 && len(e.phes) >= 3 {
 				copy(e.tsci[:], e.phes[:3])
 			}
 			p = append(p, e.phes...)
-			p = append(p, u[2:]...)
-			e.paciBody = u[2:]
+			body := u[2:]
+			if bad {
+				body = body[:t.Intn(minI(4, len(body)+1))]
+			}
+			p = append(p, body...)
+			e.paciBody = body
 			out, exp = append(out, p), append(exp, e)
 			i++
 		}
